@@ -43,7 +43,7 @@ Definition n_cd (c : cdpc) : N := match c with CdNs => 0 | CdSelect => 1 | CdDon
 Definition n_sg (c : sigpc) : N := match c with SgOff => 0 | SgNr => 1 | SgWait => 2 | SgSendInt => 3 | SgSendQuit => 4 | SgDone => 5 end.
 Definition n_ifw (c : ifwpc) : N := match c with IfNone => 0 | IfWait => 1 | IfDone => 2 end.
 Definition n_rd (c : rdpc) : N := match c with RdNone => 0 | RdReading => 1 | RdSendMsg => 2 | RdSendErr => 3 | RdDone => 4 end.
-Definition n_tk (c : tkpc) : N := match c with TkNs => 0 | TkListen => 1 | TkDone => 2 end.
+Definition n_tk (c : tkpc) : N := match c with TkNs => 0 | TkListen => 1 | TkDone => 2 | TkStale => 3 end.
 Definition n_kx (c : kxpc) : N := match c with KxNone => 0 | KxSd p => 1 + n_phase p | KxDone => 7 end.
 Definition n_fin (c : finst) : N := match c with Fin0 => 0 | Fin1 => 1 | FinClosed => 2 end.
 
